@@ -141,6 +141,55 @@ def tlc_trace(module, cfg, trace_path, timeout=1800, extra_env=None):
                 violations=viol, drifts=drifts, states=int(gen.group(2)), raw=out if notc else "")
 
 
+def tlc_behaviours(module, cfg, out_path, workers=8, timeout=1800, simulate=None, seed=1, heap="8g"):
+    """Runs TLC on a configuration whose invariant prints <<"REPLAY", json>> lines (exhaustively, or with
+    simulate=(num, depth) by random simulation) and returns the printed behaviours (JSON text of action
+    lists) without duplicates and without behaviours that are a strict prefix of another one."""
+    meta = workdir("tlcb-" + str(os.getpid()) + "-" + str(time.time_ns()))
+    env = _tlc_env(None)
+    env["JAVA_TOOL_OPTIONS"] += f" -Xmx{heap}"
+    cmd = ["tlc", "-metadir", meta, "-cleanup", "-noGenerateSpecTE", "-config", cfg]
+    if simulate:
+        cmd += ["-workers", "1", "-simulate", f"num={simulate[0]}", "-depth", str(simulate[1]), "-seed", str(seed)]
+    else:
+        cmd += ["-workers", str(workers)]
+    cmd.append(module)
+    t0 = time.time()
+    try:
+        with open(out_path, "w") as fo:
+            p = subprocess.run(cmd, cwd=SPEC, env=env, stdout=fo, stderr=subprocess.STDOUT, text=True, timeout=timeout)
+    except subprocess.TimeoutExpired:
+        raise ToolError(f"TLC timed out on {module}/{cfg}")
+    finally:
+        shutil.rmtree(meta, ignore_errors=True)
+    acts = set()
+    tail = []
+    states = 0
+    complete = False
+    with open(out_path) as fi:
+        for l in fi:
+            if l.startswith('<<"REPLAY", "'):
+                body = l.rstrip("\n")[len('<<"REPLAY", "'):-len('">>')].replace('\\"', '"')
+                acts.add(tuple(json.dumps(a, sort_keys=True) for a in json.loads(body)))
+            else:
+                tail.append(l)
+                tail = tail[-60:]
+                m = re.search(r"(\d+) states generated, (\d+) distinct states found, (\d+) states left on queue", l)
+                if m:
+                    states, complete = int(m.group(2)), int(m.group(3)) == 0
+                m = re.search(r"The number of states generated: (\d+)", l)
+                if m:
+                    states, complete = int(m.group(1)), False
+    text = "".join(tail)
+    if "Error:" in text or states == 0:
+        sys.stdout.write(text[-4000:])
+        raise ToolError(f"TLC failed on {module}/{cfg}")
+    ordered = sorted(acts)
+    keep = [a for k, a in enumerate(ordered) if not (k + 1 < len(ordered) and ordered[k + 1][:len(a)] == a)]
+    return dict(behaviours=["[" + ",".join(a) + "]" for a in keep], printed=len(acts), states=states, complete=complete,
+                wall_s=round(time.time() - t0, 1))
+
+
 def tlc_mc(module, cfg, workers=8, timeout=3600, extra_args=None, extra_env=None, heap="8g"):
     """Exhaustive model checking. Returns dict(ok, states, distinct, depth, violation, coverage)."""
     meta = workdir("tlcmc-" + str(os.getpid()) + "-" + str(time.time_ns()))
